@@ -45,6 +45,7 @@ SPECS = {
     'HERMTOEP': dict(module='toeplitz'),
     'TOEPLITZ': dict(module='toeplitz'),
     'arburg': dict(module='burg'),
+    'rlevinson': dict(module='levinson'),          # calls levdown: the callee is translated too and embedded ([SCall])
     'CORRELATION': dict(module='correlation', oracles=('pylab_rms_flat',)),
     'arcovar_marple': dict(module='covar'),
     'modcovar_marple': dict(module='modcovar'),
@@ -93,8 +94,9 @@ class Program:
 
 
 class FnTranslator:
-    def __init__(self, modtree, fn, spec, progname):
+    def __init__(self, modtree, fn, spec, progname, stack=()):
         self.fn = fn; self.spec = spec; self.progname = progname
+        self.modtree = modtree; self.stack = tuple(stack)      # functions being translated around this one (calls are embedded; no recursion)
         self.np_names = set(); self.logging_names = set(); self.nodes = 0
         for n in modtree.body:
             if isinstance(n, ast.Import):
@@ -161,6 +163,7 @@ class FnTranslator:
         # names bound to a list display / comprehension somewhere: Python lists; `+`, `*`, `+=` on them concatenate / repeat, the IR's arrays do not
         self.display_vars = {t.id for n in ast.walk(fn) if isinstance(n, ast.Assign) and isinstance(n.value, (ast.List, ast.ListComp))
                              for t in n.targets if isinstance(t, ast.Name)}
+        self.find_matrix_vars(fn)
         if 'params' in spec:
             params = list(spec['params']); defaults = [None] * len(params)
         else:
@@ -229,6 +232,56 @@ class FnTranslator:
                 if id(n) not in ok_nodes:
                     self.fail(n, 'a list that is appended to may only be bound to list displays, appended to and returned (%s)' % n.id)
 
+    def zeros2_args(self, e):
+        """(n, m, real) if e is numpy.zeros((n, m)) / numpy.zeros((n, m), dtype=float|complex), else None"""
+        if not (isinstance(e, ast.Call) and self.is_np(e.func, ('zeros',)) and len(e.args) == 1 and isinstance(e.args[0], ast.Tuple)
+                and len(e.args[0].elts) == 2 and not any(isinstance(x, ast.Starred) for x in e.args[0].elts)):
+            return None
+        kws = {k.arg: k.value for k in e.keywords}
+        if set(kws) - {'dtype'}:
+            return None
+        real = True
+        if 'dtype' in kws:
+            d = kws['dtype']
+            if not (isinstance(d, ast.Name) and d.id in ('float', 'complex') and d.id not in self.assigned):
+                self.fail(e, 'dtype is not the literal float / complex')
+            real = (d.id == 'float')
+        return e.args[0].elts[0], e.args[0].elts[1], real
+
+    def find_matrix_vars(self, fn):
+        """Matrices (2-D arrays).  A name bound to numpy.zeros((n, m)[, dtype=..]) somewhere is a MATRIX name: it must be a local that is
+        bound ONLY by such calls, and may be read only as `U[i, j]`, `U[i, lo:hi:step]`, `U[lo:hi:step, j]`, written only as `U[i, j] = x`,
+        `U[:, j] = v`, and returned.  Hence no other variable of the function ever holds a matrix, and the 1-D operations of the IR
+        (len, arithmetic, .transpose() = identity, conj, plain indexing ...) never meet one."""
+        self.matrix_vars = set()
+        for n in ast.walk(fn):
+            if isinstance(n, ast.Assign) and self.zeros2_args(n.value) is not None:
+                if len(n.targets) != 1 or not isinstance(n.targets[0], ast.Name):
+                    self.fail(n, '2-D array bound to something else than a plain name')
+                self.matrix_vars.add(n.targets[0].id)
+        if not self.matrix_vars:
+            return
+        argnames = {x.arg for x in fn.args.args} | set(self.spec.get('params', ()))
+        ok_nodes = set()
+        for n in ast.walk(fn):
+            if isinstance(n, ast.Assign) and len(n.targets) == 1 and isinstance(n.targets[0], ast.Name) and self.zeros2_args(n.value) is not None:
+                ok_nodes.add(id(n.targets[0]))
+            if isinstance(n, ast.Subscript) and isinstance(n.value, ast.Name) and isinstance(n.slice, ast.Tuple) and len(n.slice.elts) == 2:
+                ok_nodes.add(id(n.value))                      # the shape of the index is checked where it is translated
+            if isinstance(n, ast.Return) and n.value is not None:
+                for el in (n.value.elts if isinstance(n.value, ast.Tuple) else [n.value]):
+                    if isinstance(el, ast.Name):
+                        ok_nodes.add(id(el))
+        for n in ast.walk(fn):
+            if isinstance(n, ast.Name) and n.id in self.matrix_vars:
+                if n.id in argnames:
+                    self.fail(n, 'a parameter is rebound to a 2-D array')
+                if id(n) not in ok_nodes:
+                    self.fail(n, 'a 2-D array may only be bound to numpy.zeros((n, m)), indexed as U[i, j] / U[i, a:b:c] / U[a:b:c, j], '
+                                 'stored into as U[i, j] = x / U[:, j] = v, and returned (%s)' % n.id)
+        if self.matrix_vars & (self.list_vars | self.crit_objs):
+            self.fail(fn, 'a 2-D array name is also used as a list / Criteria object')
+
     def default(self, d):
         if isinstance(d, ast.Constant) and (d.value is None or isinstance(d.value, (bool, int, float, str))):
             return self.const(d)
@@ -242,6 +295,8 @@ class FnTranslator:
         if isinstance(e, (ast.Constant, ast.BinOp, ast.UnaryOp, ast.Compare, ast.BoolOp, ast.ListComp, ast.List, ast.Tuple)):
             return True
         if isinstance(e, ast.Subscript):
+            if isinstance(e.slice, ast.Tuple):
+                return not any(isinstance(x, ast.Slice) for x in e.slice.elts)      # U[i, a:b] is a view, U[i, j] a scalar
             return not isinstance(e.slice, ast.Slice)
         if isinstance(e, ast.Call):
             f = e.func
@@ -286,6 +341,10 @@ class FnTranslator:
                                 shared.add(el.id)
                             elif isinstance(el, ast.Subscript) and isinstance(el.value, ast.Name):
                                 mutate(s, el.value.id, shared)
+                        if isinstance(s.value, ast.Call):      # the callee may return (views of) its array arguments
+                            for a in s.value.args:
+                                if not self.is_fresh(a):
+                                    shared |= names(a)
                     # anything else is rejected by the statement translator
             elif isinstance(s, ast.AugAssign):
                 t = s.target
@@ -378,6 +437,15 @@ class FnTranslator:
             if len(s.targets) != 1:
                 self.fail(s, 'chained assignment')
             t = s.targets[0]
+            if isinstance(t, ast.Name) and t.id in self.matrix_vars:
+                z = self.zeros2_args(s.value)
+                if z is None:
+                    self.fail(s, '2-D array name rebound')
+                return 'SAssign %d (EZeros2 %s %s %s)' % (self.slot_of_local(t.id), self.expr(z[0]), self.expr(z[1]), 'true' if z[2] else 'false')
+            if isinstance(t, ast.Subscript) and isinstance(t.value, ast.Name) and isinstance(t.slice, ast.Tuple):
+                return self.matrix_store(s, t)
+            if isinstance(t, (ast.Tuple, ast.List)):
+                return self.call_assign(s, t)
             if isinstance(t, ast.Name):
                 if t.id in self.crit_objs:
                     if not (isinstance(s.value, ast.Call) and isinstance(s.value.func, ast.Name) and s.value.func.id in self.crit_class):
@@ -450,6 +518,66 @@ class FnTranslator:
                 self.fail(s, 'assert message')
             return 'SAssert %s' % self.expr(s.test)
         self.fail(s, 'statement')
+
+    def matrix_store(self, s, t):
+        """U[i, j] = x   and   U[:, j] = v   on a matrix name"""
+        if t.value.id not in self.matrix_vars or len(t.slice.elts) != 2:
+            self.fail(s, 'multi-dimensional store into something that is not a 2-D array of this function')
+        x = self.lookup(t.value.id)
+        if x is None:
+            x = self.slot_of_local(t.value.id)          # stored into before any binding: UnboundLocal if executed
+        i, j = t.slice.elts
+        if isinstance(j, (ast.Slice, ast.Starred, ast.Tuple)):
+            self.fail(s, 'store into a row / block of a 2-D array')
+        if isinstance(i, ast.Slice):
+            if i.lower is not None or i.upper is not None or i.step is not None:
+                self.fail(s, 'store into a part of a column')
+            return 'SStoreCol %d %s %s' % (x, self.expr(j), self.expr(s.value))
+        if isinstance(i, (ast.Starred, ast.Tuple)):
+            self.fail(s, 'index form')
+        return 'SStore2 %d %s %s %s' % (x, self.expr(i), self.expr(j), self.expr(s.value))
+
+    def call_assign(self, s, t):
+        """[x, y[i], ..] = f(a, b, ..) for another function f of the same module: f is translated by this translator (its own slots, its own
+        aliasing pass) and embedded as an SCall; its n >= 2 results go to fresh slots, then the targets are assigned left to right."""
+        c = s.value
+        if len(t.elts) < 2:
+            self.fail(s, 'unpacking into fewer than two targets')
+        if not (isinstance(c, ast.Call) and isinstance(c.func, ast.Name)):
+            self.fail(s, 'tuple assignment of something else than a call of a function of this module')
+        f = c.func.id
+        if f in self.assigned or f in self.oracle_fns or f in self.crit_class or f in self.crit_objs or f in EXC:
+            self.fail(s, 'call of a local / special name')
+        if c.keywords or any(isinstance(a, ast.Starred) for a in c.args):
+            self.fail(s, 'keyword / starred arguments in a call')
+        if f == self.fn.name or f in self.stack:
+            self.fail(s, 'recursive call')
+        fndef = find_function(self.modtree, f, s)
+        sub = FnTranslator(self.modtree, fndef, {}, f, stack=self.stack + (self.fn.name,))
+        prog = sub.translate()
+        if sub.matrix_vars:
+            self.fail(s, 'callee uses a 2-D array')
+        if len(c.args) > len(prog.params):
+            self.fail(s, 'too many arguments')
+        self.nodes += prog.nodes
+        args = [self.expr(a) for a in c.args]
+        tmps = [self.new_slot('%s@ret%d#%d' % (f, i, len(self.slots))) for i in range(len(t.elts))]
+        out = ['SCall [%s] %d %s %d\n(%s)\n[%s]' % ('; '.join('%d%%nat' % x for x in tmps), len(prog.params),
+                                                    '[' + '; '.join('None' if d is None else '(Some %s)' % d for d in prog.defaults) + ']', len(prog.slots), prog.body,
+                                                    '; '.join(['(Some %s)' % a for a in args] + ['None'] * (len(prog.params) - len(args))))]
+        for el, tmp in zip(t.elts, tmps):
+            if isinstance(el, ast.Name):
+                if el.id in self.matrix_vars or el.id in self.crit_objs or el.id in self.list_vars:
+                    self.fail(s, 'call result bound to a 2-D array / Criteria / list name')
+                out.append('SAssign %d (EVar %d)' % (self.slot_of_local(el.id), tmp))
+            elif isinstance(el, ast.Subscript) and isinstance(el.value, ast.Name) and not isinstance(el.slice, (ast.Slice, ast.Tuple)):
+                x = self.lookup(el.value.id)
+                if x is None:
+                    self.fail(s, 'store into a non-local')
+                out.append('SStore %d %s (EVar %d)' % (x, self.expr(el.slice), tmp))
+            else:
+                self.fail(s, 'assignment target')
+        return self.seq(out)
 
     def is_int_promotion(self, s):
         """exactly `if <x>.dtype.kind in '<subset of iub>': <x> = <x>.astype(float)` for a local array <x> (no else):
@@ -617,6 +745,8 @@ class FnTranslator:
             if type(op) not in CMPOPS:
                 self.fail(e, 'comparison operator')
             return '(ECmp %s %s %s)' % (CMPOPS[type(op)], self.expr(l), self.expr(r))
+        if isinstance(e, ast.Subscript) and isinstance(e.slice, ast.Tuple):
+            return self.matrix_index(e)
         if isinstance(e, ast.Subscript):
             a = self.expr(e.value)
             sl = e.slice
@@ -643,6 +773,36 @@ class FnTranslator:
         if isinstance(e, ast.Call):
             return self.call(e)
         self.fail(e, 'expression')
+
+    def matrix_index(self, e):
+        """U[i, j], U[i, lo:hi:step], U[lo:hi:step, j] on a matrix name"""
+        if not (isinstance(e.value, ast.Name) and e.value.id in self.matrix_vars and len(e.slice.elts) == 2 and isinstance(e.ctx, ast.Load)):
+            self.fail(e, 'multi-dimensional index')
+        x = self.lookup(e.value.id)
+        if x is None:
+            x = self.slot_of_local(e.value.id)
+        i, j = e.slice.elts
+        if any(isinstance(v, (ast.Starred, ast.Tuple)) for v in (i, j)):
+            self.fail(e, 'index form')
+
+        def o(v):
+            return 'None' if v is None else '(Some %s)' % self.expr(v)
+        if isinstance(i, ast.Slice) and isinstance(j, ast.Slice):
+            self.fail(e, 'block of a 2-D array')
+        if isinstance(j, ast.Slice):
+            return '(ERowSlice (EVar %d) %s %s %s %s)' % (x, self.expr(i), o(j.lower), o(j.upper), o(j.step))
+        if isinstance(i, ast.Slice):
+            lo, hi, st = o(i.lower), o(i.upper), o(i.step)
+            return '(EColSlice (EVar %d) %s %s %s %s)' % (x, lo, hi, st, self.expr(j))
+        return '(EIndex2 (EVar %d) %s %s)' % (x, self.expr(i), self.expr(j))
+
+    def zero_list_repeat(self, e):
+        """`[0] * n` (a Python list of n int zeros, [] for n <= 0) as an element of numpy.concatenate((..)): zeros(max(0, n)) with the int tag"""
+        if isinstance(e, ast.BinOp) and isinstance(e.op, ast.Mult) and isinstance(e.left, ast.List) and len(e.left.elts) == 1 \
+                and isinstance(e.left.elts[0], ast.Constant) and type(e.left.elts[0].value) is int and e.left.elts[0].value == 0 \
+                and not self.is_pylist(e.right):
+            return '(EZeros (EMax (EInt 0) %s) true)' % self.expr(e.right)
+        return None
 
     def comp(self, e):
         if len(e.generators) != 1:
@@ -682,6 +842,8 @@ class FnTranslator:
                 return '(EMin %s %s)' % (self.expr(e.args[0]), self.expr(e.args[1]))
             if f.id == 'sum' and n == 1:
                 return '(ESum %s)' % self.expr(e.args[0])
+            if f.id == 'abs' and n == 1 and isinstance(e.args[0], ast.BinOp) and isinstance(e.args[0].op, ast.Pow) and self.is_two(e.args[0].right):
+                return '(ENrm2 %s)' % self.expr(e.args[0].left)      # abs(z**2) = |z|^2 = z*conj(z) exactly (no rounding in the IR), as abs(z)**2
             self.fail(e, 'call')
         if self.is_np(f, ('real',)) and len(e.args) == 1 and not kws:
             return '(EReal %s)' % self.expr(e.args[0])
@@ -698,7 +860,7 @@ class FnTranslator:
         if self.is_np(f, ('insert',)) and len(e.args) == 3 and not kws:
             return '(EInsert %s %s %s)' % tuple(self.expr(x) for x in e.args)
         if self.is_np(f, ('concatenate',)) and len(e.args) == 1 and not kws and isinstance(e.args[0], (ast.Tuple, ast.List)) and len(e.args[0].elts) >= 1:
-            parts = [self.expr(x) for x in e.args[0].elts]
+            parts = [self.zero_list_repeat(x) or self.expr(x) for x in e.args[0].elts]
             out = parts[-1]
             for p in reversed(parts[:-1]):
                 out = '(EConcat %s %s)' % (p, out)
@@ -739,22 +901,29 @@ def snapshot_source(module):
     return open(p).read(), p
 
 
+def find_function(tree, fname, where=None, modname='the module'):
+    """the unique module-level `def fname` of the parsed module (never rebound at module level)"""
+    fns = [n for n in tree.body if isinstance(n, ast.FunctionDef) and n.name == fname]
+    if len(fns) != 1:
+        raise Untranslatable(where if where is not None else tree, 'function %s not found exactly once in %s' % (fname, modname))
+    # a later module-level rebinding of the name would make the translated text irrelevant
+    for n in tree.body:
+        if n is not fns[0]:
+            if isinstance(n, (ast.Import, ast.ImportFrom)) and any((a.asname or a.name.split('.')[0]) == fname for a in n.names):
+                raise Untranslatable(n, 'module-level rebinding of %s' % fname)
+            for t in ast.walk(n) if isinstance(n, (ast.Assign, ast.AugAssign, ast.AnnAssign)) else []:
+                if isinstance(t, ast.Name) and t.id == fname and isinstance(t.ctx, ast.Store):
+                    raise Untranslatable(n, 'module-level rebinding of %s' % fname)
+    return fns[0]
+
+
 def translate(name, source=None):
     spec = SPECS[name]
     if source is None:
         source, _ = snapshot_source(spec['module'])
     tree = ast.parse(source)
     fname = spec.get('function', name)
-    fns = [n for n in tree.body if isinstance(n, ast.FunctionDef) and n.name == fname]
-    if len(fns) != 1:
-        raise Untranslatable(tree, 'function %s not found exactly once in %s.py' % (fname, spec['module']))
-    # a later module-level rebinding of the name would make the translated text irrelevant
-    for n in tree.body:
-        if n is not fns[0]:
-            for t in ast.walk(n) if isinstance(n, (ast.Assign, ast.AugAssign, ast.AnnAssign)) else []:
-                if isinstance(t, ast.Name) and t.id == fname and isinstance(t.ctx, ast.Store):
-                    raise Untranslatable(n, 'module-level rebinding of %s' % fname)
-    return FnTranslator(tree, fns[0], spec, name).translate()
+    return FnTranslator(tree, find_function(tree, fname, modname=spec['module'] + '.py'), spec, name).translate()
 
 
 # ---------------------------------------------------------------- self-test of the fail-closed behaviour
@@ -835,6 +1004,78 @@ SELFTEST_BAD = [            # (what, old, new): each edit must make the translat
 ]
 
 
+# T5 (rlevinson): 2-D arrays, column / element stores, row / column slices, a call of another function of the module
+SELFTEST2_OK = """
+import numpy
+def g(a, e=None):
+    b = a[1:]
+    c = None
+    if e is not None:
+        c = e / 2.
+    b = numpy.insert(b, 0, 1)
+    return b, c
+def f(a, e):
+    a = numpy.array(a)
+    p = len(a)
+    U = numpy.zeros((p, p), dtype=complex)
+    U[:, p - 1] = numpy.conj(a[-1::-1])
+    w = numpy.zeros(p)
+    w[-1] = e
+    for k in range(p - 1, 0, -1):
+        [a, w[k - 1]] = g(a, w[k])
+        U[:, k] = numpy.concatenate((a[-1::-1].transpose(), [0] * (p - k)))
+    U[0, 0] = 1
+    kr = numpy.conj(U[0, 1:])
+    s = sum(U[p - 1::-1, 1] * kr[0]) + U[0, 1] / (1. - abs(a[0] ** 2))
+    return U, kr, s, w
+"""
+SELFTEST2_BAD = [
+    ('matrix aliased', "    U[0, 0] = 1", "    V = U\n    U[0, 0] = 1"),
+    ('matrix in arithmetic', "    U[0, 0] = 1", "    V = U * 2\n    U[0, 0] = 1"),
+    ('matrix transposed', "    U[0, 0] = 1", "    V = U.transpose()\n    U[0, 0] = 1"),
+    ('len of a matrix', "    p = len(a)", "    p = len(a)\n    U = numpy.zeros((p, p))\n    q = len(U)"),
+    ('row of a matrix by a plain index', "kr = numpy.conj(U[0, 1:])", "kr = numpy.conj(U[0])"),
+    ('block of a matrix', "kr = numpy.conj(U[0, 1:])", "kr = numpy.conj(U[0:1, 1:])"),
+    ('three indices', "kr = numpy.conj(U[0, 1:])", "kr = numpy.conj(U[0, 1, 0])"),
+    ('store into a part of a column', "    U[:, p - 1] = numpy.conj(a[-1::-1])", "    U[0:2, p - 1] = numpy.conj(a[-1::-1])"),
+    ('store into a row', "    U[0, 0] = 1", "    U[0, :] = a"),
+    ('store into a block', "    U[0, 0] = 1", "    U[:, :] = 0"),
+    ('augmented column store', "    U[0, 0] = 1", "    U[:, 0] += a"),
+    ('augmented element store', "    U[0, 0] = 1", "    U[0, 0] += 1"),
+    ('matrix rebound to a vector', "    U[0, 0] = 1", "    U = numpy.zeros(p)\n    U[0, 0] = 1"),
+    ('matrix as a loop variable', "    U[0, 0] = 1", "    for U in range(0, 2):\n        pass"),
+    ('3-D zeros', "numpy.zeros((p, p), dtype=complex)", "numpy.zeros((p, p, p), dtype=complex)"),
+    ('2-D zeros with a dtype expression', "numpy.zeros((p, p), dtype=complex)", "numpy.zeros((p, p), dtype=a.dtype)"),
+    ('2-D zeros inside an expression', "    w = numpy.zeros(p)", "    w = numpy.conj(numpy.zeros((p, p)))"),
+    ('2-D index on a vector', "kr = numpy.conj(U[0, 1:])", "kr = numpy.conj(a[0, 1:])"),
+    ('2-D store into a parameter', "    U[0, 0] = 1", "    e[0, 0] = 1"),
+    ('slice view of a matrix row, then store', "    kr = numpy.conj(U[0, 1:])", "    kr = U[0, 1:]\n    kr[0] = 2"),
+    ('matrix passed to a call', "g(a, w[k])", "g(U, w[k])"),
+    ('call of an unknown function', "g(a, w[k])", "h(a, w[k])"),
+    ('call with a keyword argument', "g(a, w[k])", "g(a, e=w[k])"),
+    ('call with a starred argument', "g(a, w[k])", "g(*a)"),
+    ('call with too many arguments', "g(a, w[k])", "g(a, w[k], 1)"),
+    ('call result bound to one name', "[a, w[k - 1]] = g(a, w[k])", "z = g(a, w[k])"),
+    ('call result unpacked into one target', "[a, w[k - 1]] = g(a, w[k])", "[a] = g(a, w[k])"),
+    ('nested unpacking', "[a, w[k - 1]] = g(a, w[k])", "[a, [z, w[k - 1]]] = g(a, w[k])"),
+    ('call result stored into a slice', "[a, w[k - 1]] = g(a, w[k])", "[a, w[0:1]] = g(a, w[k])"),
+    ('call result bound to the matrix', "[a, w[k - 1]] = g(a, w[k])", "[a, U] = g(a, w[k])"),
+    ('call used inside an expression', "[a, w[k - 1]] = g(a, w[k])", "a = g(a, w[k])[0]"),
+    ('recursive callee', "    b = a[1:]", "    [b, z] = g(a, e)"),
+    ('callee stores into its parameter', "    b = a[1:]", "    a[0] = 1\n    b = a[1:]"),
+    ('callee outside the accepted subset', "    c = None", "    c = None\n    while False:\n        pass"),
+    ('callee with a 2-D array', "    b = a[1:]", "    b = a[1:]\n    V = numpy.zeros((2, 2))"),
+    ('callee rebound at module level', "def f(a, e):", "g = len\ndef f(a, e):"),
+    ('store through a call result that may alias the argument', "        U[:, k] =", "        a[0] = 1\n        U[:, k] ="),
+    ('zero-list repetition outside concatenate', "    U[0, 0] = 1", "    z = [0] * p\n    U[0, 0] = 1"),
+    ('repetition of a list of ones', "[0] * (p - k)", "[1] * (p - k)"),
+    ('repetition of a two-element list', "[0] * (p - k)", "[0, 0] * (p - k)"),
+    ('repetition of a float-zero list', "[0] * (p - k)", "[0.] * (p - k)"),
+    ('abs without a square', "abs(a[0] ** 2)", "abs(a[0])"),
+    ('abs of a cube', "abs(a[0] ** 2)", "abs(a[0] ** 3)"),
+]
+
+
 def translator_selftest():
     """the names of the self-test edits that the translator wrongly accepts (must be empty), or a failure of the base case"""
     spec = dict(module='selftest')
@@ -843,20 +1084,25 @@ def translator_selftest():
         tree = ast.parse(src)
         fn = [n for n in tree.body if isinstance(n, ast.FunctionDef)][0]
         return FnTranslator(tree, fn, spec, 'f').translate()
+    def tr2(src):
+        tree = ast.parse(src)
+        return FnTranslator(tree, find_function(tree, 'f'), spec, 'f').translate()
     try:
         tr(SELFTEST_OK)
+        tr2(SELFTEST2_OK)
     except Untranslatable as e:
         return ['base case rejected: %s' % e]
     bad = []
-    for what, old, new in SELFTEST_BAD:
-        assert old in SELFTEST_OK, what
-        try:
-            tr(SELFTEST_OK.replace(old, new, 1))
-            bad.append(what)
-        except Untranslatable:
-            pass
-        except SyntaxError as e:     # pragma: no cover
-            bad.append('%s (self-test edit does not parse: %s)' % (what, e))
+    for base, edits, run in ((SELFTEST_OK, SELFTEST_BAD, tr), (SELFTEST2_OK, SELFTEST2_BAD, tr2)):
+        for what, old, new in edits:
+            assert old in base, what
+            try:
+                run(base.replace(old, new, 1))
+                bad.append(what)
+            except Untranslatable:
+                pass
+            except SyntaxError as e:     # pragma: no cover
+                bad.append('%s (self-test edit does not parse: %s)' % (what, e))
     return bad
 
 
@@ -1376,14 +1622,81 @@ def gen_marple(fname, mod):
     return gen
 
 
+# ---------------------------------------------------------------- rlevinson (C11; T5)
+def stepup_exact(ks):
+    """[1, a1..ap] from reflection coefficients, exactly (the ks are multiples of 1/4 and p <= 4: every coefficient is a dyadic float)"""
+    a = np.zeros(0, dtype=complex)
+    for t in ks:
+        a = np.concatenate((a + t * np.conj(a[::-1]), [t]))
+    return np.concatenate(([1.0 + 0j], a))
+
+
+def gen_rlevinson(rng, n, nimpl):
+    from spectrum.levinson import rlevinson
+    c = Cases('rlevinson')
+    kinds = ['poly', 'real', 'poly', 'a0', 'real', 'k1', 'poly', 'short', 'nonmin', 'real', 'unitk', 'poly', 'empty', 'enonpos', 'k1', 'real']
+    i = 0
+    while len(c.exact) < n:
+        kind = kinds[i % len(kinds)]; i += 1
+        p = int(rng.integers(1, 6))
+        a = poly_from_refl(rng, p); real = False
+        ef = float(rng.integers(1, 33)) / 8
+        if kind == 'real':
+            ks = rng.integers(-10, 11, size=p) / 16.0
+            a = np.zeros(0)
+            for t in ks:
+                a = np.concatenate((a + t * a[::-1], [t]))
+            a = np.concatenate(([1.0], np.round(a * 64) / 64)).astype(complex); real = True
+        elif kind == 'a0':
+            a = a.copy(); a[0] = [2, 0.5, 0, 1 + 1j][int(rng.integers(0, 4))]
+        elif kind == 'short':
+            a = a[:1]
+        elif kind == 'empty':
+            a = a[:0]
+        elif kind in ('k1', 'unitk'):
+            # a reflection coefficient equal to one (ValueError of levdown at that stage of the step-down) / of modulus one but not one
+            # (levdown divides by 1 - |k|^2 = 0: the field's total division in IR and model alike; never compared with the implementation)
+            p = int(rng.integers(2, 5)); real = bool(rng.integers(0, 2))
+            ks = rng.integers(-2, 3, size=p) / 4.0 + (0 if real else 1j * rng.integers(-2, 3, size=p) / 4.0)
+            j = int(rng.integers(1, p))
+            ks = ks.astype(complex); ks[j] = 1 if kind == 'k1' else [-1, 1j, -1j][int(rng.integers(0, 1 if real else 3))]
+            a = stepup_exact(ks)
+        elif kind == 'nonmin':
+            a = np.concatenate(([1.0 + 0j], lowbit(rng, p, True, bits=3) / 4.0))
+        elif kind == 'enonpos':
+            ef = -float(rng.integers(0, 9)) / 8
+        tags = [True, False] if real else [False]
+        for tag in tags:
+            arg = np.real(a) if tag else np.asarray(a, dtype=complex)
+            with np.errstate(all='ignore'):
+                res = call_impl(rlevinson, arg, ef)
+            c.add('q_rlevinson prog_rlevinson %s %s %s' % ('true' if tag else 'false', czl(a), cz(ef)), impl=res, a=vlib.hexv(a), efinal=ef, declared_real=tag, kind=kind)
+            if kind != 'unitk':
+                out, ex = res
+                args = '[%s; %s]' % (A_(tag, a), S_(ef))
+                if ex is not None:
+                    if ex in EXC and kind in ('a0', 'short', 'empty', 'k1') and not any(m.get('kind') == kind for m in c.impl_meta):
+                        c.add_impl('ir_raises (qrun prog_rlevinson %s) %s' % (args, ex), a=vlib.hexv(a), efinal=ef, impl_raised=ex, kind=kind)
+                elif kind in ('poly', 'real', 'enonpos') and sum(1 for m in c.impl_meta if 'impl_raised' not in m) < nimpl:
+                    R, U, kr, es = out
+                    if np.all(np.isfinite(R)) and np.all(np.isfinite(U)) and np.max(np.abs(kr)) < 0.97:
+                        kap = float(1.0 / np.prod(1 - np.abs(kr) ** 2))
+                        if kap <= 1e4:
+                            tol = 1e-9 * kap * kap * max(1.0, float(np.max(np.abs(U)))) * max(1.0, abs(ef))
+                            c.add_impl('ir_close_m %s (qrun prog_rlevinson %s) %s' % (tolq(tol), args, outs(R, U, kr, es)), a=vlib.hexv(a), efinal=ef)
+    return c
+
+
 GENERATORS = {'LEVINSON': gen_LEVINSON, 'HERMTOEP': gen_HERMTOEP, 'TOEPLITZ': gen_TOEPLITZ, 'levup': gen_levup, 'levdown': gen_levdown,
               'arburg': gen_arburg, 'CORRELATION': gen_CORRELATION, 'minvar_psi': gen_minvar_psi,
-              'arcovar_marple': gen_marple('arcovar_marple', False), 'modcovar_marple': gen_marple('modcovar_marple', True)}
+              'arcovar_marple': gen_marple('arcovar_marple', False), 'modcovar_marple': gen_marple('modcovar_marple', True),
+              'rlevinson': gen_rlevinson}
 EXACT_BUDGET = {'LEVINSON': (64, 400), 'HERMTOEP': (48, 300), 'TOEPLITZ': (56, 300), 'levup': (45, 200), 'levdown': (44, 200),
                 'arburg': (65, 400), 'CORRELATION': (68, 400), 'minvar_psi': (48, 300),
-                'arcovar_marple': (36, 180), 'modcovar_marple': (36, 180)}
+                'arcovar_marple': (36, 180), 'modcovar_marple': (36, 180), 'rlevinson': (56, 300)}
 # programs whose comparators live in a module of their own (imported by the case files only when such a program is tied)
-EXTRA_MODULES = {'arcovar_marple': 'Spectrum.Model.LoopIRMarple', 'modcovar_marple': 'Spectrum.Model.LoopIRMarple'}
+EXTRA_MODULES = {'arcovar_marple': 'Spectrum.Model.LoopIRMarple', 'modcovar_marple': 'Spectrum.Model.LoopIRMarple',
+                 'rlevinson': 'Spectrum.Model.LoopIRRlev'}
 
 # ---------------------------------------------------------------- LEVINSON: translation + theorem
 LEV_PROOF = 'Proofs/LoopIRLevinson.v'
@@ -1648,6 +1961,79 @@ Print Assumptions loopir_minvar_psi_model.
 Print Assumptions loopir_minvar_psi_tie.
 """
 
+# ---------------------------------------------------------------- TOEPLITZ: translation + theorem (T5)
+TOEP_PROOF = 'Proofs/LoopIRToeplitz.v'
+TOEP_THEOREMS = ['loopir_TOEPLITZ_model', 'loopir_TOEPLITZ_tie']
+TOEP_BLOCK = """
+(* The program regenerated on this run is, term for term, the one Proofs/LoopIRToeplitz.v is about: its theorems apply. *)
+Require Import Spectrum.Theory.Ops Spectrum.Theory.Vec Spectrum.Model.Levinson Spectrum.Model.LoopIRTie Spectrum.Proofs.LoopIRToeplitz.
+Lemma prog_TOEPLITZ_is_ref : prog_TOEPLITZ = prog_TOEPLITZ_ref.
+Proof. reflexivity. Qed.
+Theorem loopir_TOEPLITZ_model :
+  forall (F : Type) (OF : Ops F) (L : Laws OF) (feq : F -> F -> bool) (stop : Z -> F -> F -> bool)
+         (t0 : F) (tC : bool) (TC : list F) (tR : bool) (TR : list F) (tZ : bool) (Zr : list F),
+  (TC = [] \\/ length TC <> length TR \\/ feq t0 0%F = true \\/ (length TC + 1 <= length Zr)%nat) ->
+  run feq stop prog_TOEPLITZ [Some (VF t0); Some (VArr tC TC); Some (VArr tR TR); Some (VArr tZ Zr)] =
+  if Nat.eqb (length TC) 0 || negb (Nat.eqb (length TC) (length TR)) then OErr AssertionError
+  else if feq t0 0%F then OErr ValueError
+  else match toeplitz t0 TC TR Zr with
+       | Some X => ORet [VArr false X]
+       | None => OErr ValueError
+       end.
+Proof. intros. rewrite prog_TOEPLITZ_is_ref. apply toeplitz_ir_run; assumption. Qed.
+Theorem loopir_TOEPLITZ_tie :
+  forall (F : Type) (OF : Ops F) (L : Laws OF) (feq : F -> F -> bool), (forall a, feq a a = true) ->
+  forall (t0 : F) (TC TR Zr : list F), (length TC + 1 <= length Zr)%nat -> tie_toeplitz feq prog_TOEPLITZ t0 TC TR Zr = true.
+Proof. intros. rewrite prog_TOEPLITZ_is_ref. apply toeplitz_ir_tie; assumption. Qed.
+Print Assumptions loopir_TOEPLITZ_model.
+Print Assumptions loopir_TOEPLITZ_tie.
+"""
+
+# ---------------------------------------------------------------- rlevinson: translation + theorems for the argument checks and order 1 (T5)
+RLEV_PROOF = 'Proofs/LoopIRRlevinson.v'
+RLEV_THEOREMS = ['loopir_rlevinson_empty', 'loopir_rlevinson_assert', 'loopir_rlevinson_short', 'loopir_rlevinson_order1', 'loopir_rlevinson_tie_le1']
+RLEV_BLOCK = """
+(* The program regenerated on this run (rlevinson with its callee levdown embedded) is, term for term, the one Proofs/LoopIRRlevinson.v is about:
+   its theorems apply.  They cover the argument checks and order 1 only; orders >= 2 rest on the exact evaluation tie. *)
+Require Import Spectrum.Theory.Ops Spectrum.Theory.Vec Spectrum.Model.Levinson Spectrum.Model.LinPred Spectrum.Model.LoopIRTie Spectrum.Model.LoopIRRlev
+               Spectrum.Proofs.LoopIRRlevinson.
+Lemma prog_rlevinson_is_ref : prog_rlevinson = prog_rlevinson_gen0.
+Proof. reflexivity. Qed.
+Theorem loopir_rlevinson_empty :
+  forall (F : Type) (OF : Ops F) (L : Laws OF) (feq : F -> F -> bool) (stop : Z -> F -> F -> bool) (t : bool) (ef : F),
+  run feq stop prog_rlevinson [Some (VArr t []); Some (VF ef)] = OErr IndexError.
+Proof. intros. rewrite prog_rlevinson_is_ref. apply rlevinson_ir_empty. Qed.
+Theorem loopir_rlevinson_assert :
+  forall (F : Type) (OF : Ops F) (L : Laws OF) (feq : F -> F -> bool) (stop : Z -> F -> F -> bool) (t : bool) (a0 : F) (a : list F) (ef : F),
+  feq a0 1%F = false ->
+  run feq stop prog_rlevinson [Some (VArr t (a0 :: a)); Some (VF ef)] = OErr AssertionError /\\ @rlevinson F OF feq (a0 :: a) ef = None.
+Proof. intros. rewrite prog_rlevinson_is_ref. apply rlevinson_ir_assert; assumption. Qed.
+Theorem loopir_rlevinson_short :
+  forall (F : Type) (OF : Ops F) (L : Laws OF) (feq : F -> F -> bool) (stop : Z -> F -> F -> bool) (t : bool) (a0 : F) (ef : F),
+  feq a0 1%F = true ->
+  run feq stop prog_rlevinson [Some (VArr t [a0]); Some (VF ef)] = OErr ValueError /\\ @rlevinson F OF feq [a0] ef = None.
+Proof. intros. rewrite prog_rlevinson_is_ref. apply rlevinson_ir_short; assumption. Qed.
+Theorem loopir_rlevinson_order1 :
+  forall (F : Type) (OF : Ops F) (L : Laws OF) (feq : F -> F -> bool) (stop : Z -> F -> F -> bool) (t : bool) (a0 a1 : F) (ef : F),
+  feq a0 1%F = true ->
+  run feq stop prog_rlevinson [Some (VArr t [a0; a1]); Some (VF ef)] =
+  match @rlevinson F OF feq [a0; a1] ef with
+  | Some (R, st, kr, es) =>
+      ORet [VArr false R; VMat t 2 [[Umat st 0 0; Umat st 0 1]; [Umat st 1 0; Umat st 1 1]]; VArr t kr; VArr true es]
+  | None => OErr ValueError
+  end.
+Proof. intros. rewrite prog_rlevinson_is_ref. apply rlevinson_ir_order1; assumption. Qed.
+Theorem loopir_rlevinson_tie_le1 :
+  forall (F : Type) (OF : Ops F) (L : Laws OF) (feq : F -> F -> bool), (forall a, feq a a = true) ->
+  forall (t : bool) (a : list F) (ef : F), (length a <= 2)%nat -> tie_rlevinson feq prog_rlevinson t a ef = true.
+Proof. intros. rewrite prog_rlevinson_is_ref. apply rlevinson_ir_tie_le1; assumption. Qed.
+Print Assumptions loopir_rlevinson_empty.
+Print Assumptions loopir_rlevinson_assert.
+Print Assumptions loopir_rlevinson_short.
+Print Assumptions loopir_rlevinson_order1.
+Print Assumptions loopir_rlevinson_tie_le1.
+"""
+
 # routine -> the proof file its reference program text lives in, the theorems the generated file instantiates, the block that does it
 THEOREMS = {
     'LEVINSON': dict(proof=LEV_PROOF, theorems=LEV_THEOREMS, block=LEV_BLOCK),
@@ -1656,6 +2042,8 @@ THEOREMS = {
     'levdown': dict(proof=LEVDOWN_PROOF, theorems=LEVDOWN_THEOREMS, block=LEVDOWN_BLOCK),
     'HERMTOEP': dict(proof=HERM_PROOF, theorems=HERM_THEOREMS, block=HERM_BLOCK),
     'minvar_psi': dict(proof=MVPSI_PROOF, theorems=MVPSI_THEOREMS, block=MVPSI_BLOCK),
+    'TOEPLITZ': dict(proof=TOEP_PROOF, theorems=TOEP_THEOREMS, block=TOEP_BLOCK),
+    'rlevinson': dict(proof=RLEV_PROOF, theorems=RLEV_THEOREMS, block=RLEV_BLOCK),
 }
 
 
@@ -1751,7 +2139,7 @@ def loopir_tie(ctx, names):
     t0 = time.time()
     info = ctx.extra.setdefault('loopir', {})
     wrong = translator_selftest()
-    info['translator_selftest'] = {'edits_that_must_be_rejected': len(SELFTEST_BAD), 'wrongly_accepted': wrong}
+    info['translator_selftest'] = {'edits_that_must_be_rejected': len(SELFTEST_BAD) + len(SELFTEST2_BAD), 'wrongly_accepted': wrong}
     if wrong:
         ctx.broken.append({'theorem': 'loopir: translator self-test (fail-closed behaviour)', 'where': '_loopir.py', 'log': '; '.join(wrong)})
     progs = {}
